@@ -34,7 +34,7 @@ func (c04) Meta() fw.Meta {
 
 func (c04) Cases(tier string) int {
 	if tier == "thorough" {
-		return 60000
+		return 600000
 	}
 	return 1500
 }
